@@ -7,9 +7,10 @@ TECHNIQUE = 'exhaustive flag-to-class dispatch check, frozen-table check of ever
 CLAIM = ('Decides statically the structural conditions under which all configurations run the same computation: the 16 flag combinations select the class whose template arguments equal the flag bits; the dataset item address '
          'is composed exactly once per engine x mode; every engine gates the same five v1/v2 decision points on its own flag copy (kept in sync); the hand-written x86 dataset-read fragments implement the v1/v2 mp alias (abstract interpretation); '
          'software and hardware AES paths have identical round structure; dataset initialisation writes exactly the requested items whichever initialiser runs; the Argon2 implementations share their addressing skeleton; '
-         'the x86 emitter agrees with the interpreter on opcode map, marks, masks and immediates. Equality of the 256-bit results is numeric and not claimed.')
+         'the x86 emitter agrees with the interpreter on opcode map, marks, masks and immediates. Equality of the 256-bit results is numeric and not claimed.'
+         ' Also: BIND-EXCL; ISUB_R immediate handling (IMM-NEG) in all four JIT back-ends including the RV64 vector generator, whose opcode table and last-writer marking are compared with the interpreter as well; the non-int128 mulh / smulh / rotr / rotl (PORT-INT: canonical form, bit-routing proof, or a concrete counterexample).')
 LEVEL_NOTE = 'Trusted: clang AST, assembled object of the x86 runtime; semantics of emitted machine code; numeric equality of engines.'
-EXPLANATION = 'VM-DISPATCH, DS-COMPOSE, V2-GATES, DS-ASM-MP, FLAG-PROP, DRV-SEQ/SIB, SPEC-LOOP, AES-SWITCH/AES-ASM, RACE-RANGE, DS-INITSEL, A2-DISPATCH/A2-SKELETON, TAB-OPC/LW-SIB/MEM-JITMASK/IMM-ENC.'
+EXPLANATION = 'VM-DISPATCH, DS-COMPOSE, V2-GATES, DS-ASM-MP, FLAG-PROP, DRV-SEQ/SIB, SPEC-LOOP, AES-SWITCH/AES-ASM, RACE-RANGE, DS-INITSEL, A2-DISPATCH/A2-SKELETON, TAB-OPC/LW-SIB/MEM-JITMASK/IMM-ENC. BIND-EXCL, IMM-NEG x4, TAB-OPC / LW-SIB for the RVV generator, PORT-INT, DS-RANGE-EVAL.'
 
 
 def run(ctx, R):
